@@ -512,4 +512,4 @@ package callbacks
 //@   in callbacks.BuildQuerySQL$*
 //@   min-sites 1
 //@   entry joinModifiersApplied == 0
-//@   assert joined-schema-modifiers-applied: joinModifiersApplied == 1 [C08]
+//@   assert joined-schema-modifiers-applied: joinModifiersApplied == 1 [C08,C11]
